@@ -162,6 +162,21 @@ FAMILIES = {
                            dict(mode="sim", max_nodes=6, min_nodes=3, num=60000, depth=18, procs=12)]},
         shards=[["ds"], ["cached"], ["with"], ["fnapp"]],
         shard_defs={"ds": "SK_ds", "cached": "SK_cached", "with": "SK_with", "fnapp": "SK_leafish"}),
+    "maps": dict(
+        consts=dict(Raises="NoRaises", Kinds="FM_Kinds", Paths="FM_Paths", Consts="FM_Consts", Tmpls="None0",
+                    Fns="None0", Bodies="FM_Bodies", DispVals="NoSeq", Preds="None0", Presets="None0",
+                    MapPaths="FM_MapPaths", Leaves="FM_Leaves"),
+        sharing=False,
+        runs={"quick": [dict(mode="bfs", max_nodes=4)], "thorough": [dict(mode="bfs", max_nodes=5)]},
+        shards=[["map"]], shard_defs={"map": "SK_map"}),
+    "siblings": dict(
+        consts=dict(Raises="NoRaises", Kinds="FS_Kinds", Paths="FS_Paths", Consts="None0", Tmpls="None0",
+                    Fns="None0", Bodies="FS_Bodies", DispVals="NoSeq", Preds="None0", Presets="FS_Presets",
+                    MapPaths="None0", Leaves="FS_Leaves", CollKinds="FS_Coll", Cbs="FK_Cbs"),
+        sharing=True,
+        runs={"quick": [dict(mode="sim", max_nodes=6, min_nodes=5, num=24000, depth=20, procs=8)],
+              "thorough": [dict(mode="sim", max_nodes=7, min_nodes=5, num=120000, depth=24, procs=12)]},
+        shards=[["coll"]], shard_defs={"coll": "SK_coll"}),
     "options": dict(
         consts=dict(Raises="NoRaises", Kinds="FO_Kinds", Paths="FO_Paths", Consts="FO_Consts", Tmpls="FO_Tmpls",
                     Fns="None0", Bodies="FO_Bodies", DispVals="NoSeq", Preds="FO_Preds", Presets="None0",
